@@ -227,6 +227,17 @@ def run_F(scn: Dict[str, Any], on, plugins=()) -> Dict[str, Any]:
                 O.query(op)
             elif k == "ahead":
                 O.ahead(op)
+            elif k == "dup_add":
+                # "register it if it is missing": the id is taken, the call is refused and must leave no trace
+                mid = op["m"] % n
+                try:
+                    f.add_market(market_id=mid, initial=float(F["markets"][mid]["initial"]), drift=O.drift[mid],
+                                 volatility=O.vol[mid], start_at=int(op.get("start_at", 0)))
+                except ValueError:
+                    mon.probe("duplicate_market_refused")
+                    O.check_history("after a refused registration")
+                else:
+                    mon.viol("C12", "duplicate_market_accepted", {"market": mid})
             elif k == "moments":
                 O.check_moments()
             elif k in ("vol", "drift", "corr", "uncorr", "shock"):
